@@ -899,4 +899,447 @@ theorem exec_magnitude (s : State) (ops : List Op) :
     constructor <;> omega
 
 
+/-! ## Per-call outcome: every blocked `Acquire` leaves the blocked set exactly once -/
+
+/-- Ticket `t` is blocked inside `Acquire`: queued, or parked on `ctx.Done()` outside the queue. -/
+def Blocked (s : State) (t : Nat) : Prop := (∃ w ∈ s.waiters, w.id = t) ∨ t ∈ s.doomed
+
+/-- Tickets of the blocked calls are below `next`; the queue is in arrival order. -/
+def WF (s : State) : Prop := Sorted s ∧ ∀ t ∈ s.doomed, t < s.next
+
+theorem wf_init (n : Int) : WF (init n) := ⟨sorted_init n, by simp [init]⟩
+
+theorem step_doomed_mem (s : State) (op : Op) :
+    ∀ t ∈ (step s op).1.doomed, t ∈ s.doomed ∨ (t = s.next ∧ ∃ n, op = .acquire n) := by
+  intro t ht
+  cases op with
+  | acquire n =>
+    simp only [step, stepAcquire] at ht
+    split at ht
+    · exact Or.inl ht
+    · split at ht
+      · exact Or.inl ht
+      · split at ht
+        · simp only [List.mem_append, List.mem_singleton] at ht
+          rcases ht with ht | ht
+          · exact Or.inl ht
+          · exact Or.inr ⟨ht, n, rfl⟩
+        · exact Or.inl ht
+  | tryAcquire n =>
+    simp only [step, stepTry] at ht
+    split at ht
+    · exact Or.inl ht
+    · split at ht <;> exact Or.inl ht
+  | release n =>
+    simp only [step, stepRelease] at ht
+    split at ht
+    · exact Or.inl ht
+    · split at ht <;> exact Or.inl ht
+  | force n =>
+    simp only [step, stepForce] at ht
+    split at ht <;> exact Or.inl ht
+  | setSize n => exact Or.inl ht
+  | cancel id =>
+    simp only [step, stepCancel] at ht
+    split at ht
+    · by_cases hnf : (isFront s id = true ∧ s.size > s.cur)
+      · simp only [hnf, and_self, if_true] at ht; exact Or.inl ht
+      · simp only [hnf, if_false] at ht; exact Or.inl ht
+    · split at ht
+      · exact Or.inl (List.filter_sublist.subset ht)
+      · exact Or.inl ht
+  | observe => exact Or.inl ht
+
+theorem step_next_ge (s : State) (op : Op) : s.next ≤ (step s op).1.next := by
+  cases op with
+  | acquire n =>
+    simp only [step, stepAcquire]
+    split
+    · simp
+    · split
+      · simp
+      · split <;> simp
+  | tryAcquire n => simp only [step, stepTry]; split; · simp
+                    · split <;> simp
+  | release n =>
+    simp only [step, stepRelease]
+    split
+    · simp
+    · split
+      · simp
+      · simp [afterNotify]
+  | force n => simp only [step, stepForce]; split <;> simp
+  | setSize n => simp [step, stepSetSize, afterNotify]
+  | cancel id =>
+    simp only [step, stepCancel]
+    split
+    · by_cases hnf : (isFront s id = true ∧ s.size > s.cur)
+      · simp only [hnf, and_self, if_true]; simp [afterNotify]
+      · simp only [hnf, if_false]; simp
+    · split <;> simp
+  | observe => simp [step]
+
+theorem step_wf (s : State) (op : Op) (h : WF s) : WF (step s op).1 := by
+  refine ⟨step_sorted s op h.1, fun t ht => ?_⟩
+  rcases step_doomed_mem s op t ht with h1 | ⟨h1, n, hn⟩
+  · exact Nat.lt_of_lt_of_le (h.2 t h1) (step_next_ge s op)
+  · subst hn; subst h1
+    simp only [step, stepAcquire]
+    split
+    · simp
+    · split
+      · simp
+      · split <;> simp
+
+theorem exec_wf (s : State) (ops : List Op) (h : WF s) : WF (exec s ops) := by
+  induction ops generalizing s with
+  | nil => exact h
+  | cons op ops ih => exact ih _ (step_wf s op h)
+
+/-- A ticket that is not blocked never becomes blocked again (tickets are fresh). -/
+theorem never_reblocked (s : State) (op : Op) (t : Nat) (ht : t < s.next) (hb : ¬ Blocked s t) :
+    ¬ Blocked (step s op).1 t := by
+  intro hb'
+  rcases hb' with ⟨w, hw, hid⟩ | hd
+  · rcases step_waiters_mem s op w hw with hm | ⟨n, _, _, hw'⟩
+    · exact hb (Or.inl ⟨w, hm, hid⟩)
+    · subst hw'; simp only at hid; omega
+  · rcases step_doomed_mem s op t hd with h1 | ⟨h1, _⟩
+    · exact hb (Or.inr h1)
+    · omega
+
+/-- The tickets admitted by a step. -/
+def admTickets (o : Out) : List Nat := o.adm.filterMap (·.ticket)
+
+theorem mem_admTickets {o : Out} {t : Nat} : t ∈ admTickets o ↔ ∃ a ∈ o.adm, a.ticket = some t := by
+  simp [admTickets, List.mem_filterMap]
+
+/-- A cancelled ticket is never among the admissions of its own cancellation step. -/
+theorem cancel_not_admitted (s : State) (id : Nat) : id ∉ admTickets (step s (.cancel id)).2 := by
+  intro h
+  obtain ⟨a, ha, hat⟩ := mem_admTickets.mp h
+  have hq := step_queue s (.cancel id)
+  simp only at hq
+  have hk : a.key ∈ (step s (.cancel id)).2.adm.map Adm.key ++ (step s (.cancel id)).1.waiters.map Waiter.key :=
+    List.mem_append_left _ (List.mem_map_of_mem ha)
+  rw [hq] at hk
+  obtain ⟨w, hw, hwk⟩ := List.mem_map.mp hk
+  have hwid : w.id = id := by
+    have : (some w.id : Option Nat) = a.ticket := congrArg Prod.fst hwk
+    rw [hat] at this; exact Option.some.inj this
+  have := (List.mem_filter.mp hw).2
+  simp [hwid] at this
+
+/-- **Exactly one way out.** If ticket `t` is blocked before a step and not after it, then either the step
+admitted it (its `Acquire` returns nil and its weight is in `cur`), or the step is the cancellation of `t`
+(its `Acquire` returns `ctx.Err()`); in the second case `t` is not among the admissions. -/
+theorem blocked_leaves_once (s : State) (op : Op) (t : Nat) (hb : Blocked s t) (hn : ¬ Blocked (step s op).1 t) :
+    (t ∈ admTickets (step s op).2 ∧ op ≠ .cancel t) ∨
+    (op = .cancel t ∧ (step s op).2.res = .err ∧ t ∉ admTickets (step s op).2) := by
+  by_cases hop : op = .cancel t
+  · right
+    subst hop
+    refine ⟨rfl, ?_, cancel_not_admitted s t⟩
+    simp only [step, stepCancel]
+    split
+    · by_cases hnf : (isFront s t = true ∧ s.size > s.cur)
+      · simp only [hnf, and_self, if_true]; rfl
+      · simp only [hnf, if_false]
+    · rename_i hany
+      split
+      · rfl
+      · rename_i hd
+        exfalso
+        rcases hb with ⟨w, hw, hid⟩ | hd'
+        · apply hany
+          simp only [List.any_eq_true, beq_iff_eq]
+          exact ⟨w, hw, hid⟩
+        · apply hd; simpa using hd'
+  · left
+    refine ⟨?_, hop⟩
+    rcases hb with ⟨w, hw, hid⟩ | hd
+    · -- queued: the queue conservation law says it is admitted or still queued
+      have hq := step_queue s op
+      have surv : ∀ (l : List (Option Nat × Nat)),
+          (step s op).2.adm.map Adm.key ++ (step s op).1.waiters.map Waiter.key = l → w.key ∈ l →
+          t ∈ admTickets (step s op).2 := by
+        intro l hl hwl
+        rw [← hl, List.mem_append] at hwl
+        rcases hwl with h1 | h1
+        · obtain ⟨a, ha, hak⟩ := List.mem_map.mp h1
+          refine mem_admTickets.mpr ⟨a, ha, ?_⟩
+          have : a.ticket = some w.id := congrArg Prod.fst hak
+          rw [this, hid]
+        · obtain ⟨w', hw', hk'⟩ := List.mem_map.mp h1
+          exfalso; apply hn; left
+          refine ⟨w', hw', ?_⟩
+          have : (some w'.id : Option Nat) = some w.id := congrArg Prod.fst hk'
+          rw [← hid]; exact Option.some.inj this
+      have stay : (step s op).1.waiters = s.waiters ∨ (∃ x, (step s op).1.waiters = s.waiters ++ [x]) →
+          t ∈ admTickets (step s op).2 := by
+        intro h; exfalso; apply hn; left
+        rcases h with h | ⟨x, h⟩
+        · exact ⟨w, by rw [h]; exact hw, hid⟩
+        · exact ⟨w, by rw [h]; exact List.mem_append_left _ hw, hid⟩
+      cases op with
+      | acquire n =>
+        simp only at hq
+        rcases hq with ⟨_, h⟩ | ⟨_, h, _⟩
+        · exact stay (Or.inr ⟨_, h⟩)
+        · exact stay (Or.inl h)
+      | tryAcquire n => exact stay (Or.inl hq.1)
+      | force n => exact stay (Or.inl hq)
+      | observe => exact stay (Or.inl hq)
+      | release n => exact surv _ hq (List.mem_map_of_mem hw)
+      | setSize n => exact surv _ hq (List.mem_map_of_mem hw)
+      | cancel id =>
+        have hne : id ≠ t := fun h => hop (by rw [h])
+        apply surv _ hq
+        apply List.mem_map_of_mem
+        apply List.mem_filter.mpr
+        refine ⟨hw, ?_⟩
+        simp only [Bool.not_eq_true', beq_eq_false_iff_ne, ne_eq, hid]
+        exact fun h => hne h.symm
+    · -- parked outside the queue: only its own cancellation removes it
+      exfalso; apply hn; right
+      cases op with
+      | acquire n =>
+        simp only [step, stepAcquire]
+        split
+        · exact hd
+        · split
+          · exact hd
+          · split
+            · exact List.mem_append_left _ hd
+            · exact hd
+      | tryAcquire n =>
+        simp only [step, stepTry]
+        split
+        · exact hd
+        · split <;> exact hd
+      | release n =>
+        simp only [step, stepRelease]
+        split
+        · exact hd
+        · split <;> exact hd
+      | force n => simp only [step, stepForce]; split <;> exact hd
+      | setSize n => exact hd
+      | observe => exact hd
+      | cancel id =>
+        have hne : id ≠ t := fun h => hop (by rw [h])
+        simp only [step, stepCancel]
+        split
+        · by_cases hnf : (isFront s id = true ∧ s.size > s.cur)
+          · simp only [hnf, and_self, if_true]; exact hd
+          · simp only [hnf, if_false]; exact hd
+        · split
+          · apply List.mem_filter.mpr
+            refine ⟨hd, ?_⟩
+            simp only [Bool.not_eq_true', beq_eq_false_iff_ne, ne_eq]
+            exact fun h => hne h.symm
+          · exact hd
+
+
+/-! ## Wake-up happens exactly when capacity allows -/
+
+/-- If the front waiter fits when `notifyWaiters` runs, it is the first admission. -/
+theorem notify_admits_front (size cur : Int) (w : Waiter) (ws : List Waiter) (h : (w.n : Int) ≤ size - cur) :
+    ∃ rest, (notify size cur (w :: ws)).2.1 = ⟨some w.id, w.n, cur + w.n, size⟩ :: rest := by
+  unfold notify
+  rw [if_neg (by omega)]
+  exact ⟨_, rfl⟩
+
+theorem release_admits_front (s : State) (n : Int) (w : Waiter) (ws : List Waiter) (hw : s.waiters = w :: ws)
+    (h0 : 0 ≤ n) (h1 : n ≤ s.cur) (hfit : (w.n : Int) ≤ s.size - (s.cur - n)) :
+    ∃ rest, (step s (.release n)).2.adm = ⟨some w.id, w.n, s.cur - n + w.n, s.size⟩ :: rest := by
+  simp only [step, stepRelease]
+  rw [if_neg (by omega), if_neg (by omega)]
+  simp only [afterNotify, hw]
+  exact notify_admits_front _ _ _ _ hfit
+
+theorem setSize_admits_front (s : State) (n : Int) (w : Waiter) (ws : List Waiter) (hw : s.waiters = w :: ws)
+    (hfit : (w.n : Int) ≤ n - s.cur) :
+    ∃ rest, (step s (.setSize n)).2.adm = ⟨some w.id, w.n, s.cur + w.n, n⟩ :: rest := by
+  simp only [step, stepSetSize, afterNotify, hw]
+  exact notify_admits_front _ _ _ _ hfit
+
+/-- Conversely an admission from the queue only happens to a waiter that fits. -/
+theorem notify_nothing_if_front_blocked (s : State) (res : Res) (w : Waiter) (ws : List Waiter)
+    (hw : s.waiters = w :: ws) (h : s.size - s.cur < (w.n : Int)) :
+    (afterNotify s res).2.adm = [] ∧ (afterNotify s res).1.waiters = s.waiters ∧ (afterNotify s res).1.cur = s.cur := by
+  simp only [afterNotify, hw, notify_blocked _ _ _ _ h, and_self]
+
+/-! ## A failed `Acquire` leaves the semaphore unchanged -/
+
+/-- `Acquire` whose context is cancelled before anything else happens (the `x` protocol operation): the two
+critical sections back to back restore `size`, `cur`, the queue and the parked set exactly. -/
+theorem failed_acquire_unchanged (s : State) (n : Int) (h : WF s)
+    (hres : (step s (.acquire n)).2.res = .blocked ∨ (step s (.acquire n)).2.res = .doomed) :
+    let s2 := (step (step s (.acquire n)).1 (.cancel s.next)).1
+    s2.size = s.size ∧ s2.cur = s.cur ∧ s2.waiters = s.waiters ∧ s2.doomed = s.doomed ∧
+    (step (step s (.acquire n)).1 (.cancel s.next)).2 = ⟨.err, []⟩ := by
+  have hfresh : ∀ w ∈ s.waiters, (w.id == s.next) = false := by
+    intro w hw; have := h.1.2 w hw; simp; omega
+  have hfreshd : ∀ t ∈ s.doomed, (t == s.next) = false := by
+    intro t ht; have := h.2 t ht; simp; omega
+  have hfil : s.waiters.filter (fun w => !(w.id == s.next)) = s.waiters := by
+    apply List.filter_eq_self.mpr; intro w hw; simp [hfresh w hw]
+  have hfild : s.doomed.filter (fun t => !(t == s.next)) = s.doomed := by
+    apply List.filter_eq_self.mpr; intro t ht; simp [hfreshd t ht]
+  have hany : s.waiters.any (fun w => w.id == s.next) = false := by
+    rw [List.any_eq_false]; intro w hw; simp [hfresh w hw]
+  simp only [step, stepAcquire] at hres ⊢
+  split at hres
+  · simp at hres
+  · rename_i hn0
+    split at hres
+    · simp at hres
+    · rename_i hfast
+      rw [if_neg hn0, if_neg hfast]
+      split
+      · -- parked
+        simp only [stepCancel, hany]
+        simp [hfild, List.filter_append]
+      · -- enqueued
+        rename_i hdoom
+        simp only [stepCancel]
+        have hany2 : (s.waiters ++ [({ id := s.next, n := n.toNat } : Waiter)]).any (fun w => w.id == s.next) = true := by
+          simp
+        rw [if_pos hany2]
+        have hfil2 : (s.waiters ++ [({ id := s.next, n := n.toNat } : Waiter)]).filter (fun w => !(w.id == s.next))
+            = s.waiters := by
+          simp [List.filter_append, hfil]
+        simp only [hfil2]
+        by_cases hnf : (isFront { s with waiters := s.waiters ++ [({ id := s.next, n := n.toNat } : Waiter)], next := s.next + 1 } s.next = true
+            ∧ s.size > s.cur)
+        · rw [if_pos hnf]
+          -- it was the front: the queue was empty, notifyWaiters has nothing to do
+          have hemp : s.waiters = [] := by
+            cases hw : s.waiters with
+            | nil => rfl
+            | cons w ws =>
+              have := hnf.1
+              simp only [isFront, hw, List.cons_append] at this
+              have := hfresh w (by rw [hw]; exact List.mem_cons_self ..)
+              simp_all
+          simp [afterNotify, hemp, notify]
+        · rw [if_neg hnf]
+          simp
+
+
+/-! ## The suggested repair of the cancellation branch -/
+
+/-- `stepCancel` with the test `isFront && s.size >= s.cur` (the suggested one-character fix). -/
+def stepCancelFixed (s : State) (id : Nat) : State × Out :=
+  if s.waiters.any (·.id == id) then
+    let front := isFront s id
+    let s' := { s with waiters := s.waiters.filter (fun w => !(w.id == id)) }
+    if front ∧ s'.size ≥ s'.cur then afterNotify s' .err
+    else (s', ⟨.err, []⟩)
+  else if s.doomed.contains id then
+    ({ s with doomed := s.doomed.filter (fun t => !(t == id)) }, ⟨.err, []⟩)
+  else (s, ⟨.noop, []⟩)
+
+def stepFixed (s : State) : Op → State × Out
+  | .cancel id => stepCancelFixed s id
+  | op => step s op
+
+def execFixed (s : State) : List Op → State
+  | [] => s
+  | op :: ops => execFixed (stepFixed s op).1 ops
+
+def NoOverReleaseFixed (s : State) : List Op → Prop
+  | [] => True
+  | op :: ops => ¬ OverRelease s op ∧ NoOverReleaseFixed (stepFixed s op).1 ops
+
+theorem stepCancelFixed_noLost (s : State) (id : Nat) (h : NoLost s) : NoLost (stepCancelFixed s id).1 := by
+  unfold stepCancelFixed
+  split
+  · by_cases hnf : (isFront s id = true ∧ s.size ≥ s.cur)
+    · simp only [hnf, and_self, if_true]; exact afterNotify_noLost _ _
+    · simp only [hnf, if_false]
+      cases hw : s.waiters with
+      | nil => simp [NoLost]
+      | cons w ws =>
+        by_cases hid : w.id = id
+        · have hfront : isFront s id = true := by simp [isFront, hw, hid]
+          have hlt : s.size < s.cur := by
+            have : ¬ s.size ≥ s.cur := fun hge => hnf ⟨hfront, hge⟩
+            omega
+          unfold NoLost
+          simp only
+          split
+          · trivial
+          · omega
+        · have hfl : (List.filter (fun w => !(w.id == id)) (w :: ws)) = w :: List.filter (fun w => !(w.id == id)) ws := by
+            simp [hid]
+          unfold NoLost at h ⊢
+          rw [hw] at h
+          simp only [hfl]
+          exact h
+  · split
+    · exact noLost_of_waiters_eq h rfl (Int.le_refl _) rfl
+    · exact h
+
+theorem stepFixed_noLost (s : State) (op : Op) (h : NoLost s) (hr : ¬ OverRelease s op) :
+    NoLost (stepFixed s op).1 := by
+  cases op with
+  | cancel id => exact stepCancelFixed_noLost s id h
+  | acquire n => exact step_noLost s _ h ⟨hr, by simp [ZeroGapOp]⟩
+  | tryAcquire n => exact step_noLost s _ h ⟨hr, by simp [ZeroGapOp]⟩
+  | release n => exact step_noLost s _ h ⟨hr, by simp [ZeroGapOp]⟩
+  | force n => exact step_noLost s _ h ⟨hr, by simp [ZeroGapOp]⟩
+  | setSize n => exact step_noLost s _ h ⟨hr, by simp [ZeroGapOp]⟩
+  | observe => exact step_noLost s _ h ⟨hr, by simp [ZeroGapOp]⟩
+
+theorem execFixed_noLost (s : State) (ops : List Op) (h : NoLost s) (hr : NoOverReleaseFixed s ops) :
+    NoLost (execFixed s ops) := by
+  induction ops generalizing s with
+  | nil => exact h
+  | cons op ops ih => exact ih _ (stepFixed_noLost s op h hr.1) hr.2
+
+/-- The repaired branch agrees with the original one except in the gap. -/
+theorem stepCancelFixed_eq (s : State) (id : Nat) (h : ¬ (isFront s id = true ∧ s.size = s.cur)) :
+    stepCancelFixed s id = stepCancel s id := by
+  unfold stepCancelFixed stepCancel
+  have : (isFront s id = true ∧ s.size ≥ s.cur) ↔ (isFront s id = true ∧ s.size > s.cur) := by
+    constructor
+    · intro ⟨a, b⟩; exact ⟨a, by by_cases he : s.size = s.cur; exact absurd ⟨a, he⟩ h; omega⟩
+    · intro ⟨a, b⟩; exact ⟨a, by omega⟩
+  simp only [this]
+
+
+/-- `size` is only ever written by `SetSize`. -/
+theorem step_size (s : State) (op : Op) :
+    (step s op).1.size = match op with | .setSize n => n | _ => s.size := by
+  cases op with
+  | acquire n =>
+    simp only [step, stepAcquire]
+    split
+    · rfl
+    · split
+      · rfl
+      · split <;> rfl
+  | tryAcquire n =>
+    simp only [step, stepTry]
+    split
+    · rfl
+    · split <;> rfl
+  | release n =>
+    simp only [step, stepRelease]
+    split
+    · rfl
+    · split <;> rfl
+  | force n => simp only [step, stepForce]; split <;> rfl
+  | setSize n => rfl
+  | cancel id =>
+    simp only [step, stepCancel]
+    split
+    · by_cases hnf : (isFront s id = true ∧ s.size > s.cur)
+      · simp only [hnf, and_self, if_true]; rfl
+      · simp only [hnf, if_false]
+    · split <;> rfl
+  | observe => rfl
+
+
 end TLVerif.Sema
